@@ -88,11 +88,11 @@ class SDM():
                     dk = self.vector_length(*dp)
                     if dk > 5.3:
                         continue
-                    if n:
-                        dk += 0.0001
-                    if (dk > 0.01) and (mind >= dk):
-                        mind = min(dk, mind)
-                        sdm_item.dist = mind
+                    # Prefer the identity where two operators give the same contact, but report the real distance:
+                    biased = dk + 0.0001 if n else dk
+                    if (biased > 0.01) and (mind >= biased):
+                        mind = min(biased, mind)
+                        sdm_item.dist = dk
                         sdm_item.atom1 = at1
                         sdm_item.atom2 = at2
                         sdm_item.a1 = i
